@@ -27,6 +27,9 @@ var specs = []Spec{
 		{Name: "seq", Pkg: "./mon/c06", Procs: 1},
 		{Name: "par", Pkg: "./mon/c06", Race: true, Env: []string{"VERIF_MODE=par"}, DeathSig: "C06/par:process-died"},
 	}},
+	{ID: "C07", Level: "exploration", MinDistinct: 50, Engines: []Engine{
+		{Name: "seq", Pkg: "./mon/c07", Procs: 1},
+	}},
 	{ID: "C08", Level: "exploration", MinDistinct: 50, Engines: []Engine{
 		{Name: "seq", Pkg: "./mon/c08", Procs: 1},
 	}},
@@ -41,6 +44,9 @@ func init() {
 		{Name: "seq", Pkg: "./mon/c10", Procs: 1},
 		{Name: "coop", Pkg: "./mon/c10", Instr: []string{"core/flow/tc_throttling.go"}, Env: []string{"VERIF_MODE=coop"}},
 	}})
+	specs = append(specs, Spec{ID: "C11", Level: "exploration", MinDistinct: 30, Engines: []Engine{
+		{Name: "seq", Pkg: "./mon/c11", Procs: 1},
+	}})
 	specs = append(specs, Spec{ID: "C12", Level: "exploration", MinDistinct: 1000, Engines: []Engine{
 		{Name: "coop", Pkg: "./mon/c12", Instr: []string{"core/circuitbreaker/circuit_breaker.go", "core/stat/base/leap_array.go"}},
 		{Name: "stress", Pkg: "./mon/c12", Race: true, Env: []string{"VERIF_MODE=stress"}, DeathSig: "C12/stress:process-died"},
@@ -54,6 +60,9 @@ func init() {
 	specs = append(specs, Spec{ID: "C18", Level: "exploration", MinDistinct: 50, Engines: []Engine{
 		{Name: "seq", Pkg: "./mon/c18", Procs: 1},
 		{Name: "file", Pkg: "./mon/c18", Env: []string{"VERIF_MODE=file"}},
+	}})
+	specs = append(specs, Spec{ID: "C14", Level: "exploration", MinDistinct: 50, Engines: []Engine{
+		{Name: "seq", Pkg: "./mon/c14", Procs: 1},
 	}})
 	specs = append(specs, Spec{ID: "C15", Level: "exploration", MinDistinct: 2, Engines: []Engine{
 		{Name: "race", Pkg: "./mon/c15", Race: true, DeathSig: "C15/process-died", RepeatQuick: 1, RepeatThorough: 4},
